@@ -12,6 +12,7 @@ import json
 import multiprocessing as mp
 import os
 import random
+import re
 import subprocess
 import sys
 import tempfile
@@ -216,6 +217,9 @@ def main(argv=None):
                 progressed = True
                 if deadline is None and not res['error']:
                     for o in res['obligations']:
+                        mt = re.match(r'\[([C0-9, ]+)\] ', o['name'])
+                        if mt and pid not in [x.strip() for x in mt.group(1).split(',')]:
+                            continue
                         if o['status'] == 'refuted' and o['kind'] != 'safety' and known_match(known, jobs[i]['name'], o['name'], jobs[i]['config']) is None:
                             deadline = time.time() + grace
                             break
@@ -250,6 +254,10 @@ def main(argv=None):
             engine_errors.append(f'{tag}: zero obligations generated')
         touched.update(res['touched'])
         for o in res['obligations']:
+            # a clause that belongs to some of the properties a harness serves only is named "[C02,C05] clause-name"
+            mt = re.match(r'\[([C0-9, ]+)\] ', o['name'])
+            if mt and pid not in [x.strip() for x in mt.group(1).split(',')]:
+                continue
             o['harness'], o['config'], o['module'], o['fn'] = job['name'], job['config'], job['module'], job['fn']
             o['native'] = job.get('native', True)
             all_obls.append(o)
